@@ -3,16 +3,19 @@ package main
 import (
 	"fmt"
 	"math"
+	"strconv"
 	"strings"
 	"time"
 
 	"github.com/esimov/gogu/bstree"
+	"golang.org/x/exp/constraints"
 )
 
 // C04 wire (mirror of coq/theories/C04_Wire.v)
 //
 //	input    = cmp :: concat [op a b]     cmp 0: ascending (a<b), 2: ascending over EXTREME keys,
-//	                                      3: descending over extreme keys, anything else: descending (a>b)
+//	                                      3: descending over extreme keys, 4/5 and 6/7: ascending/descending
+//	                                      at other TYPE INSTANCES, anything else: descending (a>b)
 //	           op 0 Upsert a b | 1 Delete a | 2 Get a | 3 Size | 4 Traverse
 //	observed = per-op results ++ [final Size] ++ final Traverse
 //	           Upsert [0] ([2] panic) | Delete [0] / [1 1] | Get [0 key val] / [1 1]
@@ -33,7 +36,7 @@ const (
 )
 
 func c04Comp(c int) func(a, b int) bool {
-	if c == 0 || c == 2 {
+	if c == 0 || c == 2 || c == 4 || c == 6 {
 		return func(a, b int) bool { return a < b }
 	}
 	return func(a, b int) bool { return a > b }
@@ -84,12 +87,61 @@ func c04Unext(x int64) int64 {
 	return x
 }
 
-func c04Trav(t *bstree.BsTree[int, int], back func(int64) int64) []int64 {
+// ---- type instances (comparator modes 4..7, see C04_Wire.v)
+//
+//	0..3  BsTree[int, int]
+//	4, 5  BsTree[string, string]            a < b / a > b on the strings
+//	6, 7  BsTree[c04Key, c04Val]            a named string type and a non-comparable struct
+//
+// A wire key k stands for the 13-digit decimal string of k + 10^12 (injective, order
+// preserving for |k| < 10^12), a wire value v for strconv.Itoa(v) resp. the struct built
+// from it.  Every string is produced by fmt/strconv at the moment it is used: two equal
+// keys never share a backing array, and never are literals.
+type c04Key string
+
+type c04Val struct {
+	n int
+	s string
+	b []byte // makes the type non-comparable
+}
+
+const c04KeyBias = int64(1000000000000)
+
+func c04Instance(c int) bool { return c >= 4 && c <= 7 }
+
+func c04StrKey(k int64) string { return fmt.Sprintf("%013d", k+c04KeyBias) }
+func c04StrUnkey(s string) int64 {
+	v, err := strconv.ParseInt(s, 10, 64)
+	if err != nil || len(s) != 13 {
+		return -888
+	}
+	return v - c04KeyBias
+}
+func c04StrVal(v int64) string { return strconv.FormatInt(v, 10) }
+func c04StrUnval(s string) int64 {
+	v, err := strconv.ParseInt(s, 10, 64)
+	if err != nil {
+		return -888
+	}
+	return v
+}
+func c04MkVal(v int64) c04Val {
+	s := strconv.FormatInt(v, 10)
+	return c04Val{n: int(v), s: s, b: []byte(s)}
+}
+func c04UnVal(x c04Val) int64 {
+	if x.s != strconv.Itoa(x.n) || string(x.b) != x.s {
+		return -888
+	}
+	return int64(x.n)
+}
+
+func c04Trav[K constraints.Ordered, V any](t *bstree.BsTree[K, V], unkey func(K) int64, unval func(V) int64) []int64 {
 	var items []int64
 	n := 0
 	panicked, hung := tryTimeout(20*time.Second, func() {
-		t.Traverse(func(it bstree.Item[int, int]) {
-			items = append(items, back(int64(it.Key)), int64(it.Val))
+		t.Traverse(func(it bstree.Item[K, V]) {
+			items = append(items, unkey(it.Key), unval(it.Val))
 			n++
 		})
 	})
@@ -102,31 +154,20 @@ func c04Trav(t *bstree.BsTree[int, int], back func(int64) int64) []int64 {
 	return append([]int64{int64(n)}, items...)
 }
 
-func execC04(in []int64) []int64 {
-	if len(in) == 0 || (len(in)-1)%3 != 0 {
-		return []int64{-1}
-	}
-	t := bstree.New[int, int](c04Comp(int(in[0])))
-	fwd, back := func(k int64) int64 { return k }, func(k int64) int64 { return k }
-	if c04Extreme(int(in[0])) {
-		for i := 1; i+2 < len(in); i += 3 {
-			if in[i] <= c04Get && (in[i+1] < 0 || in[i+1] >= 5000) {
-				return []int64{-1} // outside the windows of the extreme-key modes
-			}
-		}
-		fwd, back = c04Ext, c04Unext
-	}
+func c04Run[K constraints.Ordered, V any](in []int64, comp func(a, b K) bool,
+	key func(int64) K, unkey func(K) int64, val func(int64) V, unval func(V) int64) []int64 {
+	t := bstree.New[K, V](comp)
 	var out []int64
 	for i := 1; i+2 < len(in); i += 3 {
-		op, a, b := int(in[i]), int(fwd(in[i+1])), int(in[i+2])
+		op, a, b := int(in[i]), in[i+1], in[i+2]
 		var res []int64
 		panicked := false
 		switch op {
 		case c04Upsert:
-			panicked = try(func() { t.Upsert(a, b); res = []int64{0} })
+			panicked = try(func() { t.Upsert(key(a), val(b)); res = []int64{0} })
 		case c04Delete:
 			panicked = try(func() {
-				if err := t.Delete(a); err != nil {
+				if err := t.Delete(key(a)); err != nil {
 					res = resErr(1)
 				} else {
 					res = []int64{0}
@@ -134,17 +175,17 @@ func execC04(in []int64) []int64 {
 			})
 		case c04Get:
 			panicked = try(func() {
-				it, err := t.Get(a)
+				it, err := t.Get(key(a))
 				if err != nil {
 					res = resErr(1)
 				} else {
-					res = resOk(back(int64(it.Key)), int64(it.Val))
+					res = resOk(unkey(it.Key), unval(it.Val))
 				}
 			})
 		case c04Size:
 			panicked = try(func() { res = []int64{int64(t.Size())} })
 		case c04Traverse:
-			res = c04Trav(t, back)
+			res = c04Trav(t, unkey, unval)
 		default:
 			return []int64{-1}
 		}
@@ -156,8 +197,49 @@ func execC04(in []int64) []int64 {
 	size := int64(-777)
 	try(func() { size = int64(t.Size()) })
 	out = append(out, size)
-	out = append(out, c04Trav(t, back)...)
+	out = append(out, c04Trav(t, unkey, unval)...)
 	return out
+}
+
+func execC04(in []int64) []int64 {
+	if len(in) == 0 || (len(in)-1)%3 != 0 {
+		return []int64{-1}
+	}
+	mode := int(in[0])
+	asc := mode == 0 || mode == 2 || mode == 4 || mode == 6
+	if c04Instance(mode) {
+		for i := 1; i+2 < len(in); i += 3 {
+			if in[i] <= c04Get && (in[i+1] <= -c04KeyBias || in[i+1] >= c04KeyBias) {
+				return []int64{-1} // outside the range of the fixed-width key codec
+			}
+		}
+		if mode <= 5 {
+			comp := func(a, b string) bool { return a > b }
+			if asc {
+				comp = func(a, b string) bool { return a < b }
+			}
+			return c04Run[string, string](in, comp, c04StrKey, c04StrUnkey, c04StrVal, c04StrUnval)
+		}
+		comp := func(a, b c04Key) bool { return a > b }
+		if asc {
+			comp = func(a, b c04Key) bool { return a < b }
+		}
+		return c04Run[c04Key, c04Val](in, comp,
+			func(k int64) c04Key { return c04Key(c04StrKey(k)) }, func(k c04Key) int64 { return c04StrUnkey(string(k)) },
+			c04MkVal, c04UnVal)
+	}
+	fwd, back := func(k int64) int64 { return k }, func(k int64) int64 { return k }
+	if c04Extreme(mode) {
+		for i := 1; i+2 < len(in); i += 3 {
+			if in[i] <= c04Get && (in[i+1] < 0 || in[i+1] >= 5000) {
+				return []int64{-1} // outside the windows of the extreme-key modes
+			}
+		}
+		fwd, back = c04Ext, c04Unext
+	}
+	return c04Run[int, int](in, c04Comp(mode),
+		func(k int64) int { return int(fwd(k)) }, func(k int) int64 { return back(int64(k)) },
+		func(v int64) int { return int(v) }, func(v int) int64 { return int64(v) })
 }
 
 func describeC04(in []int64) string {
@@ -165,10 +247,18 @@ func describeC04(in []int64) string {
 		return ""
 	}
 	var sb strings.Builder
-	if in[0] == 0 || in[0] == 2 {
-		sb.WriteString("New(a<b)")
+	switch {
+	case in[0] == 4 || in[0] == 5:
+		sb.WriteString("New[string,string]")
+	case in[0] == 6 || in[0] == 7:
+		sb.WriteString("New[Key(named string),struct]")
+	default:
+		sb.WriteString("New")
+	}
+	if in[0] == 0 || in[0] == 2 || in[0] == 4 || in[0] == 6 {
+		sb.WriteString("(a<b)")
 	} else {
-		sb.WriteString("New(a>b)")
+		sb.WriteString("(a>b)")
 	}
 	key := func(k int64) int64 { return k }
 	if c04Extreme(int(in[0])) {
@@ -508,9 +598,8 @@ func genC04(g *Gen) {
 
 	// --- seeded random: length-300 histories over keys 0..63; the tree is
 	// first filled in sorted, reversed or random order.
-	nr := g.Pick(400, 6000)
-	for it := 0; it < nr; it++ {
-		cmp := g.Rng.Intn(2)
+	randHist := func(cmpOf func(r int) int) []int64 {
+		cmp := cmpOf(g.Rng.Intn(2))
 		span := []int{8, 16, 64}[g.Rng.Intn(3)]
 		w := []int64{int64(cmp)}
 		present := map[int]bool{}
@@ -566,7 +655,86 @@ func genC04(g *Gen) {
 				w = append(w, c04Traverse, 0, 0)
 			}
 		}
-		emit("random", w)
+		return w
+	}
+	for it, nr := 0, g.Pick(400, 6000); it < nr; it++ {
+		emit("random", randHist(func(r int) int { return r }))
+	}
+
+	// --- instances: BsTree[string, string] (modes 4, 5) and BsTree[named string type,
+	// non-comparable struct] (modes 6, 7), keys and values built afresh by fmt/strconv for
+	// every call (see execC04): every sequence of <= 3 (thorough 4) of the 17 operations over
+	// keys 0..4; every insertion order of every subset of 0..4, one Delete, at most one
+	// re-Upsert, Get of every key; seeded random histories; keys near the ends of the codec's range.
+	for mode := 4; mode <= 7; mode++ {
+		g.Count(fmt.Sprintf("instance:mode %d", mode))
+		seqsUpTo(3*nk+2, g.Pick(3, 4), func(seq []int) {
+			w := []int64{int64(mode)}
+			for i, s := range seq {
+				switch {
+				case s < nk:
+					w = append(w, c04Upsert, int64(s), int64(val(i, s)))
+				case s < 2*nk:
+					w = append(w, c04Delete, int64(s-nk), 0)
+				case s < 3*nk:
+					w = append(w, c04Get, int64(s-2*nk), 0)
+				case s == 3*nk:
+					w = append(w, c04Size, 0, 0)
+				default:
+					w = append(w, c04Traverse, 0, 0)
+				}
+			}
+			emit("instances", w)
+		})
+		for _, p := range perms {
+			if g.Quick() && (mode == 5 || mode == 6) {
+				break // quick tier: this family at one comparator per instance
+			}
+			for d := 0; d < nk; d++ {
+				for re := -1; re < nk; re++ {
+					if g.Quick() && re >= 0 && re != d && re != (d+1)%nk {
+						continue // quick tier: re-upsert the deleted key or its neighbour
+					}
+					w := []int64{int64(mode)}
+					i := 0
+					for _, k := range p {
+						w = append(w, c04Upsert, int64(k), int64(val(i, k)))
+						i++
+					}
+					w = append(w, c04Delete, int64(d), 0)
+					i++
+					if re >= 0 {
+						w = append(w, c04Upsert, int64(re), int64(val(i, re)))
+					}
+					emit("instances", probes(w))
+				}
+			}
+		}
+		// a read in the middle: every insertion order of 3 (thorough: 3 or 4) of the keys, Get g,
+		// Delete d, Upsert u, Get of every key
+		for _, p := range perms {
+			if len(p) != 3 && (g.Quick() || len(p) != 4) {
+				continue
+			}
+			seqsExact(nk, 3, func(s []int) {
+				w := []int64{int64(mode)}
+				i := 0
+				for _, k := range p {
+					w = append(w, c04Upsert, int64(k), int64(val(i, k)))
+					i++
+				}
+				w = append(w, c04Get, int64(s[0]), 0, c04Delete, int64(s[1]), 0)
+				i++
+				w = append(w, c04Upsert, int64(s[2]), int64(val(i, s[2])))
+				emit("instances", probes(w))
+			})
+		}
+		for it, nr := 0, g.Pick(60, 1500); it < nr; it++ {
+			emit("instances", randHist(func(r int) int { return mode }))
+		}
+		edge := c04KeyBias - 1
+		emit("instances", []int64{int64(mode), c04Upsert, edge, 1, c04Upsert, -edge, 2, c04Upsert, 0, 3, c04Upsert, -1, 4, c04Upsert, 1, 5,
+			c04Get, edge, 0, c04Get, -edge, 0, c04Delete, 0, 0, c04Get, -1, 0, c04Upsert, edge, 6, c04Delete, -edge, 0, c04Delete, -edge, 0, c04Traverse, 0, 0})
 	}
 
 	// --- large: trees of 100..2000 keys (thorough: ..5000) built in sorted,
@@ -785,5 +953,5 @@ func sortedKeys(m map[int]bool) []int {
 
 func init() {
 	register(&Prop{ID: "C04", Exec: execC04, Gen: genC04, Describe: describeC04,
-		Rule: "exhaustive, for the ascending and the descending comparator: (A) every Upsert/Delete sequence of length <= 5 (thorough 6) over keys 0..4 followed by Get of every key, final Size and Traverse; (B) every sequence of length <= 4 over all 17 operations Upsert k/Delete k/Get k/Size/Traverse, k in 0..4, observed per operation; (C) every insertion order of every subset of 0..4, then every Delete sequence of length <= 2 (thorough 3), then at most one re-Upsert, then Get of every key; (D) every insertion order of every subset of >= 2 keys, one read (Get k, Size or Traverse; thorough two), one Delete, at most one re-Upsert, Get of every key; (E) every such insertion order, then Delete, Upsert, Delete (thorough: and Upsert) over all keys, Get of every key. random: length-300 histories over 8/16/64 keys, tree pre-filled in sorted, reversed or random order, deletes biased to present keys, lookups biased to neighbours of deleted keys. large: trees of 128..1025 keys built at random then Size and Traverse; trees of 100, 256, 257, 513, 1000, 2000 keys (thorough: also 255, 512, 1025, 3000, 5000) built in sorted, reversed, zig-zag (all three of depth = size) and random order with three scripts (delete every second key / re-upsert; delete in insertion order; delete in reverse order) observing Size, Traverse and Get of every key. extreme: keys MinInt64, MaxInt64, +-2^62, 0 and neighbours mixed in one tree (every ordered triple inserted, first deleted, all looked up; seeded random histories), both comparators. non-trivial = the history contains a Delete of a node with two children that is followed by a Get of that node's in-order successor key; distinct = distinct wire input"})
+		Rule: "exhaustive, for the ascending and the descending comparator: (A) every Upsert/Delete sequence of length <= 5 (thorough 6) over keys 0..4 followed by Get of every key, final Size and Traverse; (B) every sequence of length <= 4 over all 17 operations Upsert k/Delete k/Get k/Size/Traverse, k in 0..4, observed per operation; (C) every insertion order of every subset of 0..4, then every Delete sequence of length <= 2 (thorough 3), then at most one re-Upsert, then Get of every key; (D) every insertion order of every subset of >= 2 keys, one read (Get k, Size or Traverse; thorough two), one Delete, at most one re-Upsert, Get of every key; (E) every such insertion order, then Delete, Upsert, Delete (thorough: and Upsert) over all keys, Get of every key. random: length-300 histories over 8/16/64 keys, tree pre-filled in sorted, reversed or random order, deletes biased to present keys, lookups biased to neighbours of deleted keys. large: trees of 128..1025 keys built at random then Size and Traverse; trees of 100, 256, 257, 513, 1000, 2000 keys (thorough: also 255, 512, 1025, 3000, 5000) built in sorted, reversed, zig-zag (all three of depth = size) and random order with three scripts (delete every second key / re-upsert; delete in insertion order; delete in reverse order) observing Size, Traverse and Get of every key. extreme: keys MinInt64, MaxInt64, +-2^62, 0 and neighbours mixed in one tree (every ordered triple inserted, first deleted, all looked up; seeded random histories), both comparators. instances: BsTree[string,string] and BsTree[named string type, non-comparable struct] with string comparators, keys = 13-digit decimal strings and values built by fmt/strconv afresh for every call: every sequence of <= 3 (thorough 4) of the 17 operations, every insertion order of every subset of 0..4 then one Delete and at most one re-Upsert (quick: of the deleted key or its neighbour, one comparator per instance), every insertion order of 3 (thorough 3 or 4) keys then Get g, Delete d, Upsert u for all g, d, u, 60 (1500) random histories per mode. non-trivial = the history contains a Delete of a node with two children that is followed by a Get of that node's in-order successor key; distinct = distinct wire input"})
 }
